@@ -580,6 +580,9 @@ func endToEnd(c *hc.Ctx) error {
 					errc <- fmt.Errorf("Write panicked: %v", r)
 				}
 			}()
+			// when everything is written nothing more can arrive: close, so that a receiver waiting for
+			// bytes that will never come gets EOF instead of waiting for a deadline
+			defer cl.Close()
 			for _, s := range sent {
 				if err := p.cd.Write(ob, &bin.Buffer{Buf: append([]byte{}, s...)}); err != nil {
 					errc <- err
@@ -591,6 +594,7 @@ func endToEnd(c *hc.Ctx) error {
 		a := <-accCh
 		if a.err != nil {
 			fail(c, "e2e-accept:"+p.name, sig, a.err.Error())
+			sv.Close()
 			cl.Close()
 			<-errc
 			continue
@@ -614,8 +618,7 @@ func endToEnd(c *hc.Ctx) error {
 		} else {
 			c.Res.TracesValidated++
 		}
-		cl.Close()
-		a.conn.Close()
+		a.conn.Close() // unblocks the writer if the receiver gave up early
 		<-errc
 	}
 	return nil
